@@ -9,12 +9,12 @@ from checks import rfacommon as RC
 from checks import weaverops as WO
 
 PROPERTY = "C09"
-RULE = ("all programs over the public Weaver API (59 concrete operations of 19 kinds incl. observers and restore_original) "
+RULE = ("all programs over the public Weaver API (60 concrete operations of 20 kinds incl. observers, restore_original and interpolate with both n and new_x) "
         "respecting each documented precondition (evaluated on the reference model), from 7 constructors/initial series: "
-        "full alphabet to depth 2/3, core alphabet (24 ops, every kind) to depth 3/4, and the README pipeline with every "
+        "full alphabet to depth 2/3, core alphabet (25 ops, every kind) to depth 3/4, programs on ulp-spaced abscissae, and the README pipeline with every "
         "insertion/replacement/deletion of up to 1/2 operations (programs of <= 9 operations). In every state: "
         "well-formedness, caller data bytes, original bytes/model; after restore_original: observational equality with a "
-        "fresh object and 1-step bisimulation over the whole alphabet. Signature = digest of observables; "
+        "fresh object, 1-step bisimulation over the whole alphabet and 2-step bisimulation over 9 operations. Signature = digest of observables; "
         "non-trivial = state differs from the initial one")
 ASSUMPTIONS = ["noise uses a deterministic generator seam; trend callables are pure",
                "1-step bisimulation after restore_original: operations read only the three series (x_scale / y_scale are write-only)",
